@@ -47,6 +47,15 @@ func NewBodyInspector(logger logger.StyledLogger) (*BodyInspector, error) {
 	}, nil
 }
 
+// SetMaxBodySize widens (or narrows) the part of a request body the inspector reads. A body the
+// server accepts but the inspector does not read is routed without its model name, so the
+// window should follow the server's request size limit.
+func (bi *BodyInspector) SetMaxBodySize(size int64) {
+	if size > 0 {
+		bi.maxBodySize = size
+	}
+}
+
 func (bi *BodyInspector) Name() string {
 	return BodyInspectorName
 }
@@ -69,6 +78,10 @@ func (bi *BodyInspector) Inspect(ctx context.Context, r *http.Request, profile *
 
 	buffer := bi.bufferPool.Get()
 	defer func() {
+		// a buffer that grew for a very large body is dropped, the pool would pin that memory
+		if int64(buffer.Cap()) > 4*MaxBodySize {
+			return
+		}
 		buffer.Reset()
 		bi.bufferPool.Put(buffer)
 	}()
